@@ -112,11 +112,11 @@ class TinyEnv:
 
       def reset(s, rng):
         o = jax.random.uniform(rng, (3,))
-        scale = 1.0 if s.sys is None else s.sys['gain']          # the initial state depends on the (possibly randomised) system, as pipeline.init does
+        scale = 1.0 if s.sys is None else s.sys['gain'] * s.sys.get('shared', 1.0)          # the initial state depends on the (possibly randomised) system, as pipeline.init does
         return State(pipeline_state=o * 2.0 * scale, obs=o, reward=jp.zeros(()), done=jp.zeros(()), metrics={'m': jp.zeros(())}, info={})
 
       def step(s, state, action):
-        scale = 1.0 if s.sys is None else s.sys['gain']
+        scale = 1.0 if s.sys is None else s.sys['gain'] * s.sys.get('shared', 1.0)
         ps = state.pipeline_state + jp.sin(action).sum() * scale
         return state.replace(pipeline_state=ps, obs=jp.tanh(ps), reward=jp.sum(ps * ps), done=jp.where(ps[0] > 2.0, 1.0, 0.0))
       observation_size = 3
@@ -180,6 +180,7 @@ def dr_is_vmap():
     B = 3
     A = Z3Alg()
     gains = A.arr('gain', (B,))
+    shared = A.var('shared')      # a leaf the randomisation function overrides for the WHOLE batch (in_axes None): low gravity, another time step, ...
     ps, obs = A.arr('ps', (B, 3)), A.arr('obs', (B, 3))
     act = A.arr('act', (B, 2))
     from brax.envs.base import State
@@ -188,22 +189,22 @@ def dr_is_vmap():
       return State(pipeline_state=p, obs=o, reward=jp.zeros((n,)) if n else jp.zeros(()), done=jp.zeros((n,)) if n else jp.zeros(()),
                    metrics={'m': jp.zeros((n,)) if n else jp.zeros(())}, info={})
 
-    def batched(g, p, o, a):
+    def batched(g, sh, p, o, a):
       env = TinyEnv()
-      env.sys = {'gain': jp.ones(())}
-      w = tr.DomainRandomizationVmapWrapper(env, lambda sys: ({'gain': g}, {'gain': 0}))
+      env.sys = {'gain': jp.ones(()), 'shared': jp.ones(())}
+      w = tr.DomainRandomizationVmapWrapper(env, lambda sys: ({'gain': g, 'shared': sh}, {'gain': 0, 'shared': None}))
       n = w.step(mkstate(p, o, B), a)
       return n.pipeline_state, n.obs, n.reward, n.done
 
-    def solo(g, p, o, a):
+    def solo(g, sh, p, o, a):
       env = TinyEnv()
-      env.sys = {'gain': g}
+      env.sys = {'gain': g, 'shared': sh}
       n = env.step(mkstate(p, o, 0), a)
       return n.pipeline_state, n.obs, n.reward, n.done
-    full = sym_call(Interp(A), batched, Sym(gains), Sym(ps), Sym(obs), Sym(act))
+    full = sym_call(Interp(A), batched, Sym(gains), Sym(shared), Sym(ps), Sym(obs), Sym(act))
     goal = []
     for i in range(B):
-      one = sym_call(Interp(A), solo, Sym(gains[i]), Sym(ps[i]), Sym(obs[i]), Sym(act[i]))
+      one = sym_call(Interp(A), solo, Sym(gains[i]), Sym(shared), Sym(ps[i]), Sym(obs[i]), Sym(act[i]))
       for a_, b_ in zip(full, one):
         for x, y in zip(np.asarray(a_, dtype=object)[i:i + 1].reshape(-1), np.asarray(b_, dtype=object).reshape(-1)):
           goal.append(bool(x == y) if (isc(x) and isc(y)) else x == y)
@@ -212,7 +213,7 @@ def dr_is_vmap():
       r.replay = _replay_dr()
     return r
   return Obligation('C07/DomainRandomizationVmapWrapper/member[B=3]', 'brax.envs.wrappers.training:DomainRandomizationVmapWrapper.step',
-                    'member i of the randomised batched step = a solo environment built from member i\'s system, stepped on member i\'s state and action '
+                    'member i of the randomised batched step = a solo environment built from member i\'s system (its per-member leaves AND the leaves the randomisation function overrides for the whole batch), stepped on member i\'s state and action '
                     '(symbolic per-member systems, states, actions; sin/tanh uninterpreted)', run, backend='smt', budget=120)
 
 
@@ -223,23 +224,25 @@ def dr_reset_is_vmap():
     rng = jax.random.split(jax.random.PRNGKey(0), B)
     gains = jp.arange(1.0, B + 1.0)
 
-    def wrapped(g, k):
-      env = TinyEnv()
-      env.sys = {'gain': jp.ones(())}
-      return tr.DomainRandomizationVmapWrapper(env, lambda sys: ({'gain': g}, {'gain': 0})).reset(k)
+    sh0 = jp.asarray(0.25)
 
-    def solo(g, k):
+    def wrapped(g, sh, k):
       env = TinyEnv()
-      env.sys = {'gain': g}
+      env.sys = {'gain': jp.ones(()), 'shared': jp.ones(())}
+      return tr.DomainRandomizationVmapWrapper(env, lambda sys: ({'gain': g, 'shared': sh}, {'gain': 0, 'shared': None})).reset(k)
+
+    def solo(g, sh, k):
+      env = TinyEnv()
+      env.sys = {'gain': g, 'shared': sh}
       return env.reset(k)
-    j1 = str(jax.make_jaxpr(wrapped)(gains, rng))
-    j2 = str(jax.make_jaxpr(jax.vmap(solo))(gains, rng))
+    j1 = str(jax.make_jaxpr(wrapped)(gains, sh0, rng))
+    j2 = str(jax.make_jaxpr(jax.vmap(solo, in_axes=(0, None, 0)))(gains, sh0, rng))
     if j1 != j2:
       # native: member i of the randomised reset vs the solo environment of system i
-      a = wrapped(gains, rng)
+      a = wrapped(gains, sh0, rng)
       bad = None
       for i in range(B):
-        b = solo(gains[i], rng[i])
+        b = solo(gains[i], sh0, rng[i])
         if not np.allclose(np.asarray(a.pipeline_state[i]), np.asarray(b.pipeline_state)):
           bad = {'member': i, 'batched_pipeline_state': np.asarray(a.pipeline_state[i]).tolist(), 'solo_pipeline_state': np.asarray(b.pipeline_state).tolist()}
           break
@@ -256,15 +259,15 @@ def _replay_dr():
   tr = _tr()
   B = 3
   env = TinyEnv()
-  env.sys = {'gain': jp.ones(())}
-  w = tr.DomainRandomizationVmapWrapper(env, lambda sys: ({'gain': jp.arange(1.0, B + 1.0)}, {'gain': 0}))
+  env.sys = {'gain': jp.ones(()), 'shared': jp.ones(())}
+  w = tr.DomainRandomizationVmapWrapper(env, lambda sys: ({'gain': jp.arange(1.0, B + 1.0), 'shared': jp.asarray(0.25)}, {'gain': 0, 'shared': None}))
   rng = jax.random.split(jax.random.PRNGKey(0), B)
   st = jax.vmap(TinyEnv().reset)(rng)
   act = jax.random.normal(jax.random.PRNGKey(5), (B, 2))
   n = w.step(st, act)
   for i in range(B):
     e = TinyEnv()
-    e.sys = {'gain': jp.asarray(float(i + 1))}
+    e.sys = {'gain': jp.asarray(float(i + 1)), 'shared': jp.asarray(0.25)}
     ni = e.step(jax.tree_util.tree_map(lambda x: x[i], st), act[i])
     if not np.allclose(np.asarray(n.obs[i]), np.asarray(ni.obs)):
       return {'reproduced': True, 'member': i, 'batched_obs': np.asarray(n.obs[i]).tolist(), 'solo_obs': np.asarray(ni.obs).tolist()}
